@@ -179,13 +179,22 @@ def worker(args):
     phases = [Phase.generate]
     if args.shrink:
         phases.append(Phase.shrink)
-    sett = settings(max_examples=args.examples, database=None, deadline=None, derandomize=False,
-                    report_multiple_bugs=False, phases=phases, print_blob=False,
-                    suppress_health_check=list(HealthCheck), verbosity=hypothesis.Verbosity.quiet)
-    test = seed(args.seed)(sett(given(prop.strategy(args.tier))(body)))
+    # large shards are run as rounds of at most CHUNK examples, each a fresh Hypothesis run with a seed derived from the
+    # shard seed (bounds Hypothesis' bookkeeping of seen examples and re-draws its internal generation parameters)
+    CHUNK = 20000
+    rounds = []
+    left = args.examples
+    while left > 0:
+        rounds.append(min(CHUNK, left))
+        left -= rounds[-1]
     t0 = time.time()
     try:
-        test()
+        for ri, nex in enumerate(rounds):
+            sett = settings(max_examples=nex, database=None, deadline=None, derandomize=False,
+                            report_multiple_bugs=False, phases=phases, print_blob=False,
+                            suppress_health_check=list(HealthCheck), verbosity=hypothesis.Verbosity.quiet)
+            test = seed(args.seed if ri == 0 else args.seed * 1000003 + ri)(sett(given(prop.strategy(args.tier))(body)))
+            test()
     except Violation:
         v = fail["verdict"]
         out["status"] = "violation"
